@@ -27,6 +27,7 @@ M = [
  ("m16-c13-mutex-deadlock-on-cancel", "C13", "violation", V1, "\t\t\tsimYield(\"worker.found\", wid)\n\t\t\tatomic.StoreUint32(&done, 1)\n\t\t\tsimYield(\"worker.send\", wid)\n\t\t\tresults <- nonce", "\t\t\tfindMu.Lock()\n\t\t\tdefer findMu.Unlock()\n\t\t\tif len(results) > 0 {\n\t\t\t\treturn\n\t\t\t}\n\t\t\tsimYield(\"worker.found\", wid)\n\t\t\tatomic.StoreUint32(&done, 1)\n\t\t\tsimYield(\"worker.send\", wid)\n\t\t\tresults <- nonce", "finders serialised by a mutex and only the first one sends; combined with a results channel of capacity 0 the first finder blocks in the send while holding the mutex: deadlock"),
  ("m17-c13-watcher-polls-with-ticker", "C13", "clean", V2, "\t\tselect {\n\t\tcase <-ctx.Done():\n\t\t\tsimYield(\"watcher.cancelled\", simWatcher)\n\t\t\tatomic.StoreUint32(&done, 1)\n\t\tcase <-closing:\n\t\t\treturn\n\t\t}", "\t\ttick := time.NewTicker(time.Millisecond)\n\t\tdefer tick.Stop()\n\t\tfor {\n\t\t\tselect {\n\t\t\tcase <-tick.C:\n\t\t\t\tif ctx.Err() != nil {\n\t\t\t\t\tsimYield(\"watcher.cancelled\", simWatcher)\n\t\t\t\t\tatomic.StoreUint32(&done, 1)\n\t\t\t\t\treturn\n\t\t\t\t}\n\t\t\tcase <-closing:\n\t\t\t\treturn\n\t\t\t}\n\t\t}", "the watcher polls ctx.Err() on a 1 ms ticker instead of waiting on ctx.Done(): cancellation is honoured within a millisecond, everything else unchanged - needs simulated time to pass while workers compute"),
  ("m18-c11-digest-cached-by-length", "C11", "violation", V1, "\th := Hash.New()\n\th.Write(data)\n\tpowDigest := h.Sum(nil)\n\n\t// stop when", "\tpowDigest, cached := digestCache[len(data)]\n\tif !cached {\n\t\th := Hash.New()\n\t\th.Write(data)\n\t\tpowDigest = h.Sum(nil)\n\t\tdigestCache[len(data)] = powDigest\n\t}\n\n\t// stop when", "package-level digest cache keyed by the data LENGTH only: the second Mine call of a process with different data of the same length mines for the first data - needs two calls in one process (replayed with a prelude)"),
+ ("m19-c13-done-flag-in-worker-struct", "C13", "violation", V2, "type Worker struct {\n\tnumWorkers int\n}", "type Worker struct {\n\tnumWorkers int\n\tdone       uint32 // stop flag of the current Mine call\n}", "the stop flag lives in the Worker and is never reset: the SECOND Mine call on the same Worker finds it raised and returns the cancellation error although its context was never cancelled - needs a Worker reused across calls"),
  ("m20-c11-one-trit-fewer", "C11", "violation", V1, "\tfor i := consts.HashTrinarySize - n; i < consts.HashTrinarySize; i++ {", "\tfor i := consts.HashTrinarySize - n + 1; i < consts.HashTrinarySize; i++ {", "lane test checks one trailing trit fewer than required"),
  ("m21-c11-overshoot-zeros", "C11", "clean", V1, "\tfor zeros <= consts.HashTrinarySize && score(zeros) < targetScore {", "\tfor zeros <= consts.HashTrinarySize-1 && score(zeros) <= targetScore {", "requires one zero more at exact boundaries: slower but sound"),
  ("m22-c11-estimate-only", "C11", "violation", V1, "\tfor zeros <= consts.HashTrinarySize && score(zeros) < targetScore {\n\t\tzeros++\n\t}\n", "", "upward correction dropped: targets just above 3^k/len come out one zero short"),
@@ -53,7 +54,8 @@ M = [
 # m55 is in fact equivalent (transform happens before block i>0 either way); mark clean
 M[-1] = M[-1][:2] + ("clean",) + M[-1][3:6] + ("equivalent restructuring of the transform-before-later-blocks rule",)
 # m09 needs the value to be used
-FIX = {"m18-c11-digest-cached-by-length": [("const ln3 = ", "var digestCache = map[int][]byte{}\n\nconst ln3 = ")],
+FIX = {"m19-c13-done-flag-in-worker-struct": [("\t\tdone    uint32\n", ""), ("atomic.StoreUint32(&done, 1)\n\t\tcase <-closing:", "atomic.StoreUint32(&w.done, 1)\n\t\tcase <-closing:"), ("sufficientTrailing, target, &done, &counter)", "sufficientTrailing, target, &w.done, &counter)"), ("\t\t\tatomic.StoreUint32(&done, 1)\n\t\t\tsimYield(\"worker.send\", wid)", "\t\t\tatomic.StoreUint32(&w.done, 1)\n\t\t\tsimYield(\"worker.send\", wid)")],
+       "m18-c11-digest-cached-by-length": [("const ln3 = ", "var digestCache = map[int][]byte{}\n\nconst ln3 = ")],
        "m17-c13-watcher-polls-with-ticker": [("\t\"sync/atomic\"\n", "\t\"sync/atomic\"\n\t\"time\"\n")],
        "m15-c13-finders-serialised-by-mutex": [("\t\twg      sync.WaitGroup\n", "\t\twg      sync.WaitGroup\n\t\tfindMu  sync.Mutex\n")],
        "m16-c13-mutex-deadlock-on-cancel": [("\t\twg      sync.WaitGroup\n", "\t\twg      sync.WaitGroup\n\t\tfindMu  sync.Mutex\n"), ("results = make(chan uint64, w.numWorkers)", "results = make(chan uint64)")],
